@@ -1649,7 +1649,7 @@ impl Interp {
             B_M_CEIL => Ok(vec![Value::Num(self.arg_num(&args, 0, "ceil")?.ceil())]),
             B_M_SQRT => {
                 let x = self.arg_num(&args, 0, "sqrt")?;
-                Ok(vec![Value::Num(if self.sqrt_is_pow { pow(x, 0.5) } else { x.sqrt() })])
+                Ok(vec![Value::Num(if self.sqrt_is_pow { pow(x, std::hint::black_box(0.5)) } else { x.sqrt() })])
             }
             B_M_ABS => Ok(vec![Value::Num(self.arg_num(&args, 0, "abs")?.abs())]),
             B_M_FMOD => {
